@@ -42,7 +42,7 @@ FIELD_POOL = ['Ok', 'Fail', 'Error', 'Yes', 'No', 'f0', 'A', 'b', 'Busy']
 FEATURES = ['deep_ns', 'global_enc', 'shared_itf', 'empty_itf', 'no_ports', 'inout_mix',
             'out_many_formals', 'nested_enum', 'outer_enum', 'injected', 'same_name_siblings',
             'multi_id_ns', 'reopened_ns', 'system_enc', 'partial_spelling', 'distractors',
-            'many_ports', 'subint_reply', 'bool_reply', 'mc_ready', 'ref_extern', 'prefix_ports', 'mirror_ns', 'many_provides', 'prefix_ns']
+            'many_ports', 'subint_reply', 'bool_reply', 'mc_ready', 'ref_extern', 'prefix_ports', 'mirror_ns', 'many_provides', 'prefix_ns', 'many_requires']
 
 
 def _uniq(draw, pool, taken, n=1):
@@ -301,7 +301,7 @@ def shell_model(draw, force=None, max_ports=6, collide=False):  # pylint: disabl
 
     # ---- ports of the encapsulee (types are looked up from the encapsulee's parent scope)
     if 'no_ports' not in feats:
-        n_ports = draw(st.integers(4, max_ports)) if ('many_ports' in feats or
+        n_ports = draw(st.integers(4, max_ports)) if ('many_ports' in feats or 'many_requires' in feats or
                                                       'many_provides' in feats) else \
             draw(st.integers(1, min(4, max_ports)))
         p_taken = set()
@@ -316,6 +316,7 @@ def shell_model(draw, force=None, max_ports=6, collide=False):  # pylint: disabl
                 shared = ref
             direction = 'provides' if j == 0 else draw(st.sampled_from(
                 ['provides', 'provides', 'provides', 'requires'] if 'many_provides' in feats else
+                ['requires'] if 'many_requires' in feats else
                 ['provides', 'requires', 'requires']))
             nm = _uniq(draw, PREFIX_PORT_POOL if 'prefix_ports' in feats else PORT_POOL, p_taken)
             # port names that differ only in the case of the first letter collide in the
